@@ -51,6 +51,7 @@ type tableSpec struct {
 	Rename      func(atom string) string
 	AtLeastOnce func(ast.Node) bool
 	Pure        func(*ast.CallExpr) bool
+	PE          **pathEnum // receives the enumerator (for late-bound terms in Outcome)
 }
 
 func orderAtom(a, b string) (string, bool) {
@@ -88,6 +89,18 @@ func renameFormula(f Formula, ren func(string) string) Formula {
 // consistent rejects valuations that make one term equal to two different constants,
 // or a term both nil and equal to a non-nil constant.
 func consistent(val map[string]int) bool {
+	isType := map[string]string{}
+	for a, v := range val {
+		if v == 1 && strings.HasPrefix(a, "is:") {
+			parts := strings.SplitN(strings.TrimPrefix(a, "is:"), "|", 2)
+			if len(parts) == 2 {
+				if prev, ok := isType[parts[1]]; ok && prev != parts[0] {
+					return false
+				}
+				isType[parts[1]] = parts[0]
+			}
+		}
+	}
 	eqConst := map[string]string{}
 	for a, v := range val {
 		if v != 1 || !strings.HasPrefix(a, "eq:") {
@@ -128,6 +141,9 @@ func runTable(c *Ctx, ts tableSpec) {
 	pe := &pathEnum{info: fi.Pkg.TypesInfo, ev: ts.Events, cap: pathCap, fd: fi.Decl, atLeastOnce: ts.AtLeastOnce, pure: ts.Pure}
 	if pe.ev == nil {
 		pe.ev = func(ast.Node) []Event { return nil }
+	}
+	if ts.PE != nil {
+		*ts.PE = pe
 	}
 	paths, _ := pe.run(body)
 	c.Sites += len(paths)
@@ -384,6 +400,8 @@ func classifyValue(info *types.Info, fd *ast.FuncDecl, e ast.Expr, depth int) st
 					return "resp(params:" + st + ")"
 				}
 				return "resp(empty)"
+			case isNamed(tv.Type, spbPath, "FlushResponse"):
+				return "resp(flush:" + constName(info, compositeFields(cl)["Result"]) + ")"
 			}
 		}
 	}
